@@ -3,7 +3,7 @@
    what that property's statements need, so that a change which breaks one property's proof leaves the
    others' theorems checkable. *)
 From NTRIP Require Import Base Queue QueueProofs.
-From NTRIP Require ConcQueue.
+From NTRIP Require ConcQueue NetExamples.
 From NTRIPGen Require Import GenConsts.
 
 (* ===================== C18 (sequential part) ===================== *)
@@ -47,6 +47,13 @@ Theorem C18_linearizable : forall (A : Type) (cap : nat) prog c, (1 <= cap)%nat 
   ((forall i, ConcQueue.holdsW A queue_add_locked (ConcQueue.th A c i) = false) -> ConcQueue.shq A c = ConcQueue.absq A c).
 Proof. intros A cap prog c Hc. exact (ConcQueue.linearizable A cap Hc _ _ eq_refl eq_refl prog c). Qed.
 Print Assumptions C18_linearizable.
+
+(* Non-vacuity: with both locks in force, a goroutine adds 10 and 11 while another takes a snapshot in between:
+   a reachable configuration in which the snapshot [10] has been handed out. *)
+Example C18_concurrent_example :
+  exists c, ConcQueue.reach nat true true (ConcQueue.init nat 2%nat NetExamples.cq_prog) c /\
+            ConcQueue.outs nat c 1%nat = [ConcQueue.RGet nat [10]%nat] /\ ConcQueue.added nat c = [10; 11]%nat.
+Proof. exact NetExamples.concqueue_example. Qed.
 
 
 (* The locks matter in this model: with Add NOT taking the write lock (queue_add_locked = false) there is
